@@ -250,6 +250,8 @@ def eval_case(case):
         if len(fails) < 5:
             fails.append({'relation': rel, 'detail': detail})
     labels = [case['kind'], case['decoder']]
+    if case.get('decoder_rate') is not None and case['decoder_rate'] != case['error_rate']:
+        labels.append('decoder-prior-differs-from-rate')
     aux = None
     if case['kind'] == 'consistency':
         evals, nt = consistency_case(case, fail)
@@ -296,6 +298,8 @@ def consistency_cases(draw, max_total=60):
     if sum(sched) == 0:
         sched[-1] = 2
     case.update(kind='consistency', schedule=sched, n_once=8 if slow else 20)
+    if draw(st.integers(0, 3)) == 0:
+        case['decoder_rate'] = draw(st.sampled_from([0.02, 0.1, 0.3]))
     return case
 
 
@@ -305,6 +309,12 @@ def calibration_cases(draw, N=4000, N_synd=2000):
     slow = case['decoder'] == 'UnionFindDecoder'
     case.update(kind='calibration', N=N // (4 if slow else 1), N_synd=N_synd)
     case['error_rate'] = draw(st.sampled_from([0.05, 0.1, 0.2, 0.3, 0.6, 0.8]))
+    # a decoder tuned at a prior rate of its own (e.g. one decoder object kept
+    # while the physical rate is swept): the trials are still drawn at the
+    # simulation's rate, incl. its end points
+    if draw(st.integers(0, 2)) == 0:
+        case['decoder_rate'] = draw(st.sampled_from([0.02, 0.1, 0.3]))
+        case['error_rate'] = draw(st.sampled_from([0.0, 0.05, 0.15, 0.4, 0.8, 1.0]))
     return case
 
 
